@@ -162,7 +162,7 @@ pub struct C18 {
 
 impl C18 {
     pub fn new(tier: &str) -> C18 {
-        let lens: Vec<u64> = if tier == "thorough" { vec![1, 2, 3, 4] } else { vec![1, 2] };
+        let lens: Vec<u64> = if tier == "thorough" { vec![1, 2, 3] } else { vec![1, 2] };
         let mut fams = Fams::default();
         for l in &lens {
             fams.add(&format!("fault sequences of length {} (+2 trailing normal requests) x gap", l), vec![(KINDS.len() as u64).pow(*l as u32), 2]);
